@@ -85,9 +85,32 @@ def _parse_cmp(s):
             if r is None:
                 return None
             pa, t = r
-    if pa is not None and t[:1] in ("-", "+"):
-        return None          # pre-release / build metadata: not modelled
-    return (op, maj, mi, pa), _trim(t)
+    pre = ""
+    if pa is not None and t[:1] == "-":
+        r = _identifier(True, t[1:])
+        if r is None:
+            return None
+        pre, t = r
+    if pa is not None and t[:1] == "+":
+        r = _identifier(False, t[1:])      # build metadata: checked and dropped
+        if r is None:
+            return None
+        t = r[1]
+    return (op, maj, mi, pa, pre), _trim(t)
+
+
+_IDENT = set("0123456789ABCDEFGHIJKLMNOPQRSTUVWXYZabcdefghijklmnopqrstuvwxyz-")
+
+
+def _identifier(pre, s):
+    n = 0
+    while n < len(s) and (s[n] in _IDENT or s[n] == "."):
+        n += 1
+    body = s[:n]
+    for seg in body.split("."):
+        if seg == "" or (pre and len(seg) > 1 and seg[0] == "0" and seg.isdigit() and seg.isascii()):
+            return None
+    return body, s[n:]
 
 
 def vreq_parse(text):
@@ -115,12 +138,12 @@ def vreq_print(cs):
     if not cs:
         return "*"
     parts = []
-    for op, maj, mi, pa in cs:
+    for op, maj, mi, pa, pre in cs:
         s = _OPS[op] + str(maj)
         wild = ".*" if op == "OpWild" else ""
         if mi is not None:
             s += "." + str(mi)
-            s += "." + str(pa) if pa is not None else wild
+            s += "." + str(pa) + ("-" + pre if pre else "") if pa is not None else wild
         else:
             s += wild
         parts.append(s)
@@ -382,10 +405,12 @@ class Env:
         if k == "DFloat" and isinstance(j, float):
             return ("VFloat", j)
         if k == "DFloat" and isinstance(j, int) and not isinstance(j, bool):
-            # serde_json hands an integer token to the f64 visitor as `z as f64`; exact up to 2^53 (Model/Serde.v int_is_exact_float)
-            if abs(j) <= 2 ** 53:
+            # serde_json hands an integer token to the f64 visitor as `z as f64`: the nearest binary64, ties to even
+            # (python's int -> float is correctly rounded too); Model/Serde.v int_float_repr
+            try:
                 return ("VFloat", float(j))
-            raise DeErr("integer beyond 2^53 where a float is expected (rounds; not modelled) at %s" % where)
+            except OverflowError:
+                raise DeErr("integer rounds to infinity at %s" % where)
         if k == "DBool" and isinstance(j, bool):
             return ("VBool", j)
         if k == "DChar" and isinstance(j, str) and len(j) == 1:
@@ -593,11 +618,11 @@ STRINGS = ["", "a", "main", "x y", "éè", "q\"uote", "back\\slash", "nl\nline",
 FLOATS = [0.5, 1.0, -2.25, 1e-07, 1e+16, 3.141592653589793, 1.7976931348623157e308, 5e-324, -0.0, 123456789.125]
 IDENT_PARTS = ["a", "t", "std", "this", "my table", "x.y", "é", "", "select"]
 # Display forms of semver requirements (pre-release / build metadata are outside Model/VersionReq.v)
-VERSION_REQS = ["^0.13", ">=0.13.0, <0.14.0", "=1.2.3", "*", "~1.2", ">1.0.0", "1.*", "1.2.*", "<=2", "^0, <18446744073709551615.0.1"]
+VERSION_REQS = ["^0.13", ">=0.13.0, <0.14.0", "=1.2.3", "*", "~1.2", ">1.0.0", "1.*", "1.2.*", "<=2", "^0, <18446744073709551615.0.1", ">1.0.0-alpha.1", "=1.2.3-rc.1, <2.0.0-0"]
 
 
 def random_version_text(rng):
-    """a text in the neighbourhood of semver's requirement grammar (no `-` / `+`: pre-release and build are not modelled)"""
+    """a text in the neighbourhood of semver's requirement grammar"""
     r = rng.random()
     if r < 0.2:
         return rng.choice(VERSION_FIXED)
@@ -612,6 +637,8 @@ def random_version_text(rng):
                 c += "." + rng.choice([num(), num(), "*", "x", "X"])
                 if rng.random() < 0.6:
                     c += "." + rng.choice([num(), num(), "*", "x"])
+                    if rng.random() < 0.35:
+                        c += rng.choice(["-", "-", "+", "-a+"]) + ".".join(rng.choice(["a", "rc", "0", "1", "01", "x-y", "", "B2"]) for _ in range(rng.choice([1, 1, 2, 3])))
             cs.append(c + rng.choice(["", "", " "]))
         return rng.choice(["", "", " "]) + rng.choice([",", ", ", " ,", " , ", ","]).join(cs)
     alphabet = ["0", "1", "2", "9", "10", "13", ".", ".", ",", ", ", " ", "*", "x", ">", "<", "=", ">=", "<=", "~", "^", "00", "X"]
@@ -621,7 +648,9 @@ def random_version_text(rng):
 VERSION_FIXED = ["*", " * ", "x", "X", "*,1", "* 1", "", " ", "1", "1.2", "1.2.3", "01", "0", "00", "0.0.0", "1.02", ">=1.0, <2", ">= 1.0 ,<2", ">=1.0,<2 ",
                  "=1.2.3", "~1", "^0.13", "0.13", "1.*", "1.x", "1.X.3", "1.*.*", "1.2.*", ">=1.*", ">=1.2.*", "1.*.2", "~1.x", "1..2", "1.", ".1", "1.2.3.4",
                  "1,", ",1", "1,,2", "1 2", "> =1", ">==1", "=>1", "<1, >2, =3", "18446744073709551615", "18446744073709551616", "1.18446744073709551616",
-                 "^1.2.3", "1.2.3 ", "1.2 .3", "1. 2", "^ 1", "^  1.2", "v1", "1.2.3,", "1.2.3 ,  4", ", ".join(["1"] * 32), ", ".join(["1"] * 33), "1.*, 2",
+                 "^1.2.3", "1.2.3 ", "1.2 .3", "1. 2", "^ 1", "^  1.2", "v1", "1.2.3-alpha", "1.2.3-alpha.1", ">1.0.0-alpha.1", "1.2.3-0", "1.2.3-01", "1.2.3-0a",
+                 "1.2.3-a..b", "1.2.3-a.", "1.2.3-.a", "1.2.3-", "1.2.3+b1", "1.2.3+001", "1.2.3-rc.1+build.5", "1.2.3+", "1.2.3+a..b", "1.2-alpha", "1-a", "1.2.3-a-b--c",
+                 "1.2.3-a_b", "1.2.3 -a", "1.2.3- a", "1.2.3-a +b", "1.2.3-a, 2.0.0-b.0", "1.2.x-a", "1.2.3-é", "=1.2.3-00x", "1.2.3-9.08", "1.2.3+9.08", "1.2.3,", "1.2.3 ,  4", ", ".join(["1"] * 32), ", ".join(["1"] * 33), "1.*, 2",
                  "x.1", "*.1", "1.2.x, <3", "<=2.0.0", "<= 2", "~", "^", ">", "1.2.3.", "1.a", "a"]
 
 
